@@ -331,13 +331,13 @@ def _between_impl(
                 cleft,
                 expr=expr,
                 operator=operators.and_,
-            ),
+            ).self_group(against=op),
             coercions.expect(
                 roles.BinaryElementRole,
                 cright,
                 expr=expr,
                 operator=operators.and_,
-            ),
+            ).self_group(against=op),
             group=False,
         ),
         op,
